@@ -44,7 +44,7 @@ type Case struct {
 
 var plzSpecific = map[string]bool{
 	"adjacent_literals": true, "fstring": true, "raw_string": true, "type_annotation": true, "arg_alias": true, "comprehension": true,
-	"inline_if": true, "dict_union": true, "subinclude": true, "consecutive_subincludes": true, "percent_format": true, "dot_format": true, "join": true,
+	"inline_if": true, "dict_union": true, "subinclude": true, "consecutive_subincludes": true, "non_adjacent_subinclude": true, "percent_format": true, "dot_format": true, "join": true,
 	"rule_call": true, "non_canonical_quotes": true, "docstring": true,
 }
 
